@@ -431,8 +431,12 @@ func (c *Ctx) Finish() int {
 		ev["machinery_failures"] = c.broken
 	}
 	b, _ := json.MarshalIndent(ev, "", " ")
-	os.MkdirAll(filepath.Join(OutDir(), "evidence"), 0o755)
-	if err := os.WriteFile(filepath.Join(OutDir(), "evidence", c.ID+".json"), b, 0o644); err != nil {
+	evdir := "evidence"
+	if strings.HasPrefix(c.ID, "X") {
+		evdir = "evidence_ext" // extension checks beyond the listed properties keep their evidence apart
+	}
+	os.MkdirAll(filepath.Join(OutDir(), evdir), 0o755)
+	if err := os.WriteFile(filepath.Join(OutDir(), evdir, c.ID+".json"), b, 0o644); err != nil {
 		fmt.Fprintln(os.Stderr, "cannot write evidence:", err)
 		return 2
 	}
